@@ -29,11 +29,12 @@ VARIABLES l,        \* cursor
           sent,     \* [p, m, n] : Send events carrying m to p
           seenBl,   \* <<p, n>> of the blacklist entries seen on earlier lines
           wr,       \* wr[p] : frames written to p since it was blacklisted through the API
+          regraft,  \* peers for which the tracer reported a GRAFT (mesh entry) after they were blacklisted through the API
           pwr,      \* c16.writes of the previous line (Write calls handed to the transport, per peer)
           upset,    \* peers whose outbound stream is established according to the tracer (Up without a later Down)
           info      \* the scenario's reset arguments
 
-tvars == <<l, recvd, dlv, sent, seenBl, wr, pwr, upset, info>>
+tvars == <<l, recvd, dlv, sent, seenBl, wr, regraft, pwr, upset, info>>
 
 L == Trace[l]
 More == l <= Len(Trace)
@@ -71,7 +72,9 @@ V(pred, kind, m, p, inflight, clause) ==
     [pred |-> pred, kind |-> kind, scn |-> L.scn, line |-> L.i, pos |-> info.pos, how |-> info.how,
      by |-> info.by, impl |-> info.impl, path |-> info.path,
      stage |-> IF inflight THEN info.stage ELSE "none",
-     m |-> m, p |-> p, inflight |-> inflight, clause |-> clause]
+     m |-> m, p |-> p, inflight |-> inflight, clause |-> clause,
+     \* did the victim have a registered outbound queue right before the blacklisting? (the api clean-up runs only then)
+     hadq |-> L.c16.capq # "none"]
 
 -----------------------------------------------------------------------------
 (* P_C16_NoInject: no delivery / forward of a message whose forwarder or author is blacklisted
@@ -170,6 +173,8 @@ FramesAfter(i) ==
     ELSE Len(L.out[p])
 WrOf(p) == IF p \in DOMAIN wr THEN wr[p] ELSE 0
 PrevWrites(p) == IF p \in DOMAIN pwr THEN pwr[p] ELSE 0
+\* tracer Graft events (the peer entered a mesh: its GRAFT was accepted, or the node grafted it) after an api entry for that peer
+RegraftAll == regraft \cup {Ev[j].p : j \in {x \in EvIdx("Graft") : \E i \in DOMAIN BL : BL[i].how = "api" /\ BL[i].p = Ev[x].p /\ BL[i].n < Ev[x].n}}
 
 \* at that moment
 VApiMoment ==
@@ -189,6 +194,13 @@ VApiAfter ==
               THEN {V("P_C16_Api", "after", "", p, FALSE, "open-queue")} ELSE {})
            \cup (IF WrOf(p) <= 1 /\ WrOf(p) + FramesAfter(i) > 1
                    THEN {V("P_C16_Api", "after", "", p, FALSE, "sent")} ELSE {})
+           \* "no longer appears in the mesh at that moment": if p is in a mesh on a later line although the tracer has not
+           \* reported a GRAFT for p since the blacklisting, it never left (a later GRAFT of p on its surviving inbound
+           \* stream re-enters it, D6, and is not held against the statement)
+           \cup (IF ~Fresh(i) /\ InAny(p, L.st.mesh) # {} /\ p \notin RegraftAll
+                   THEN {V("P_C16_Api", "after", "", p, FALSE, "mesh-stale")} ELSE {})
+           \cup (IF ~Fresh(i) /\ InAny(p, L.st.fanout) # {} /\ p \notin RegraftAll
+                   THEN {V("P_C16_Api", "after", "", p, FALSE, "fanout-stale")} ELSE {})
            \* the same at the node's own network interface: Write calls after the instant of the Add (at most the one
            \* Write that was in progress: the writer sits inside it with the RPC it had popped; its next Pop fails)
            \cup (IF L.c16.writes[p] > BL[i].wr + 1 /\ (Fresh(i) \/ PrevWrites(p) <= BL[i].wr + 1)
@@ -210,11 +222,11 @@ Evals ==
 
 -----------------------------------------------------------------------------
 TInit == /\ TLCSet(1, 0) /\ TLCSet(2, 0) /\ TLCSet(3, 0)
-         /\ l = 1 /\ recvd = {} /\ dlv = {} /\ sent = {} /\ seenBl = {} /\ wr = <<>> /\ pwr = <<>> /\ upset = {} /\ info = NoInfo
+         /\ l = 1 /\ recvd = {} /\ dlv = {} /\ sent = {} /\ seenBl = {} /\ wr = <<>> /\ regraft = {} /\ pwr = <<>> /\ upset = {} /\ info = NoInfo
 
 TReset ==
     /\ More /\ IsReset
-    /\ recvd' = {} /\ dlv' = {} /\ sent' = {} /\ seenBl' = {} /\ wr' = <<>> /\ pwr' = <<>> /\ upset' = {}
+    /\ recvd' = {} /\ dlv' = {} /\ sent' = {} /\ seenBl' = {} /\ wr' = <<>> /\ regraft' = {} /\ pwr' = <<>> /\ upset' = {}
     /\ info' = [pos |-> L.act.cfg.pos, how |-> L.act.cfg.how, by |-> L.act.cfg.by, stage |-> L.act.cfg.stage,
                 impl |-> L.act.cfg.impl, path |-> L.act.cfg.path]
     /\ l' = l + 1
@@ -228,6 +240,7 @@ TStep ==
     /\ seenBl' = seenBl \cup {<<BL[i].p, BL[i].n>> : i \in DOMAIN BL}
     /\ wr' = [p \in {BL[i].p : i \in ApiNow} |->
                 LET i == CHOOSE x \in ApiNow : BL[x].p = p IN WrOf(p) + FramesAfter(i)]
+    /\ regraft' = RegraftAll
     /\ pwr' = L.c16.writes
     /\ upset' = UpAfter
     /\ info' = info
